@@ -40,6 +40,21 @@ var (
 	ErrConnectionFailed      = errors.Errorf("No suitable DNS query type found. Are you connected to a network?")
 )
 
+// isTimeout tells if the error means that no answer arrived in time. The communicator reports
+// that as a (wrapped) net.Error, never as the smux.ErrTimeout value itself.
+func isTimeout(err error) bool {
+	if err == nil {
+		return false
+	}
+	if err == smux.ErrTimeout {
+		return true
+	}
+	if ne, ok := errors.Cause(err).(net.Error); ok && ne.Timeout() {
+		return true
+	}
+	return false
+}
+
 // ClientDnsConnection will simulate connections over a DNS server request/response loop
 type ClientDnsConnection struct {
 	Communicator      ClientCommunicator
@@ -405,7 +420,7 @@ func (dc *ClientDnsConnection) EncodingTestUpstream(testPattern []byte) error {
 
 	for i := 0; !dc.Closed() && i < 3; i++ {
 		var resp *commands.TestUpstreamEncoderResponse
-		if r, err := dc.SendEncodingTestUpstream(testPattern, secs(i+1)); err == smux.ErrTimeout {
+		if r, err := dc.SendEncodingTestUpstream(testPattern, secs(i+1)); isTimeout(err) {
 			log.Debug("Retrying upstream codec test...")
 			continue
 		} else if err != nil {
@@ -506,7 +521,7 @@ func (dc *ClientDnsConnection) SetEncodingUpstream() error {
 	log.Infof("Switching upstream to codec to %v", dc.Serializer.Upstream.Encoder.Name())
 	for i := 0; !dc.Closed() && i < 5; i++ {
 		resp, err := dc.SendSetEncodingUpstream(secs(i + 1))
-		if err == smux.ErrTimeout {
+		if isTimeout(err) {
 			log.Debugf("No response, retrying...")
 			continue
 		} else if err != nil {
@@ -619,7 +634,7 @@ func (dc *ClientDnsConnection) SetEncodingDownstream() error {
 	log.Infof("Switching downstream to codec to %v", dc.Serializer.Downstream.Encoder.Name())
 	for i := 0; !dc.Closed() && i < 5; i++ {
 		resp, err := dc.SendSetEncodingDownstream(secs(i + 1))
-		if err == smux.ErrTimeout {
+		if isTimeout(err) {
 			log.Debugf("No response, retrying...")
 			continue
 		} else if err != nil {
@@ -684,7 +699,7 @@ func (dc *ClientDnsConnection) AutodetectFragmentSize() (uint32, error) {
 		/* stop the slow probing early when we have enough bytes anyway */
 		for i := 0; !dc.Closed() && i < 3; i++ {
 			resp, err := dc.SendFragmentSizeTest(proposed, secs(1))
-			if err == smux.ErrTimeout {
+			if isTimeout(err) {
 				continue
 			} else if err != nil {
 				log.WithError(err).Warnf("Communication error: %v", err)
@@ -769,7 +784,7 @@ func (dc *ClientDnsConnection) AutodetectLazyMode() {
 
 	for i := 0; !dc.Closed() && i < 5; i++ {
 		resp, err := dc.SendSetEncodingDownstream(secs(i + 1))
-		if err == smux.ErrTimeout {
+		if isTimeout(err) {
 			log.Debugf("No response, retrying...")
 			continue
 		} else if err != nil {
@@ -810,7 +825,7 @@ func (dc *ClientDnsConnection) SwitchFragmentSize(requested uint32) error {
 	for i := 0; !dc.Closed() && i < 5; i++ {
 		resp, err := dc.SendSetDownstreamFragmentSize(requested, secs(i+1))
 
-		if err == smux.ErrTimeout {
+		if isTimeout(err) {
 			log.Debugf("Retrying set fragsize...")
 			continue
 		} else if err != nil {
@@ -1008,7 +1023,7 @@ func (dc *ClientDnsConnection) SendAndReceive(chunk *util.Packet) error {
 
 	for i := 1; i <= 5; i++ {
 		timeout := time.Duration(i) * time.Second
-		if resp, err := dc.Query(req, timeout); err == smux.ErrTimeout {
+		if resp, err := dc.Query(req, timeout); isTimeout(err) {
 			if i == 5 {
 				return err
 			} else {
